@@ -148,6 +148,13 @@ def run_case(case):
         out['full'] = {'used': [ids[id(u)] for u in final2.used], 'label': final2.label, 'correct': final2.correct}
     except Exception as e:
         out['full'] = {'raise': type(e).__name__}
+    # resolving the same report once more must give the same answer (nothing about the report is consumed or grown by a resolve)
+    try:
+        final3 = simple.resolve(R) if rep is not None else simple.resolve()
+        out['simple_again'] = describe(final3)
+        out['n_feedback_after'] = [len(R.feedback), len(R.ignored_feedback)]
+    except Exception as e:
+        out['simple_again'] = {'raise': type(e).__name__, 'msg': str(e)[:200]}
     return out
 
 
